@@ -6,10 +6,10 @@ import Driver.Lisk32
 namespace Driver.Codec
 open LiskVerif LiskVerif.Codec LiskVerif.Gen
 
-def run1 (strict : Bool) (name hex : String) : String :=
+def run1 (strict : Bool) (name hex : String) (nfc : NFC := asciiNFC) : String :=
   match allSchemas.find name, Hex.decode? hex with
   | some s, some b =>
-    let r := if strict then decodeStrict allSchemas asciiNFC s b else decode allSchemas asciiNFC s b
+    let r := if strict then decodeStrict allSchemas nfc s b else decode allSchemas nfc s b
     match r with
     | .ok vals => "ok " ++ Hex.encode (encode allSchemas asciiNFC s vals)
     | .error e => "err " ++ e.name
@@ -19,6 +19,10 @@ def step (_ : Unit) (w : List String) : Unit × String :=
   let r : String :=
     match w with
     | ["reset"] => "ok"
+    | ["nfcdec", name, hex, bit] =>
+      -- NFC verdict for non-ASCII strings supplied by the harness (x/text oracle)
+      let nfc : NFC := { normal := fun b => b.all (·.toNat < 128) || bit == "1", normalize := id }
+      run1 false name hex nfc ++ " " ++ run1 true name hex nfc
     | ["rt", name, hex] => run1 false name hex ++ " " ++ run1 true name hex
     | ["dec", name, hex] => run1 false name hex
     | ["decs", name, hex] => run1 true name hex
